@@ -33,7 +33,7 @@ def main(c):
             if not ok:
                 c.notes.append("MODEL: Shutdown (repaired shape) violates a property: " + cfg)
         bad = 0
-        for cfg in ("MC_Shutdown_prefix_main.cfg", "MC_Shutdown_prefix_signal.cfg"):
+        for cfg in ("MC_Shutdown_prefix_main.cfg", "MC_Shutdown_prefix_signal.cfg", "MC_Shutdown_wakefirst.cfg"):
             ok, _ = c.model_check(specs, "Shutdown.tla", cfg, workers=4, expect_violation=True)
             bad += 0 if ok else 1
         c.cov["prefix_shutdown_models_violated_as_expected"] = bad
